@@ -115,7 +115,10 @@ def reference(flavor, ops):
             ka = (a[0], sum(1 << k for k in a[1]), [a[1][k] for k in sorted(a[1])])
             kb = (b[0], sum(1 << k for k in b[1]), [b[1][k] for k in sorted(b[1])])
             c = (ka > kb) - (ka < kb)
-            out.append(c if flavor == 0 else int(c == 0))
+            # the property fixes WHEN two sets are equal, not which of two different sets is the smaller one:
+            # the reference predicts equality only (("ne",) stands for any non-zero answer); that the answers form
+            # a total preorder is judged by order_laws
+            out.append((0 if c == 0 else ("ne",)) if flavor == 0 else int(c == 0))
         elif t == 4:
             m, d = vars_[o[1]]
             k = o[2]
@@ -163,6 +166,55 @@ def final_pairs(p):
     for k, v in p:
         d[k] = v
     return d
+
+
+# what the schema syntax itself reserves around a type / attribute text (schema.go, resolve.go): the separator
+# between type and name, the label and error markers of a resolve line, line structure, comments
+# (measured on the code: edge types in ParseResolve are cut at the first `|`, after the label `: ` and the
+# ` ERROR: ` marker were split off; import types and version attributes in schema.New are what precedes a
+# single `|`, after comments `#` were removed and, for imports, the line was cut at the first `@`)
+SCHEMA_RESERVED = {0: [b"|", b": ", b" ERROR: "], 1: [b"|", b"#", b"@"], 2: [b"|", b"#"]}
+LINE_STRUCTURE = [b"\n", b"\r", b"\t"]
+
+
+def via_schema_oracle(ctx, dep_keep, ver_sets):
+    """The observation points the property names: the same type / attribute texts read through
+    schema.ParseResolve (an edge's type) and schema.New (an import's type, a version's attributes) must give
+    what deptest/versiontest.ParseString give directly.  A text containing one of the tokens the schema syntax
+    reserves cannot get through the glue (known class F-C19-5)."""
+    cases, want = [], []
+    for p, t in dep_keep[:ctx.scale(700, 12000)]:
+        text = parse_sx(t) if isinstance(t, str) else t
+        if not text:
+            continue
+        for which in (0, 1):
+            cases.append([which, text])
+            want.append(("dep", text))
+    for p, t in ver_sets[:ctx.scale(500, 8000)]:
+        text = parse_sx(t) if isinstance(t, str) else t
+        if not text:
+            continue
+        cases.append([2, text])
+        want.append(("ver", text))
+    direct_dep = dict(zip([w[1] for w in want if w[0] == "dep"], ctx.impl("dep_parse", [sx(w[1]) for w in want if w[0] == "dep"])))
+    direct_ver = dict(zip([w[1] for w in want if w[0] == "ver"], ctx.impl("ver_parse", [sx(w[1]) for w in want if w[0] == "ver"])))
+    outs = ctx.impl("via_schema", [sx(c) for c in cases])
+    for c, (fl, text), o in zip(cases, want, outs):
+        d = parse_sx((direct_dep if fl == "dep" else direct_ver)[text])
+        r = parse_sx(o)
+        if d[0] != b"ok":
+            continue                      # the direct parser rejects the text: nothing to carry through
+        entry = ["schema.ParseResolve (edge type)", "schema.New (import type)", "schema.New (version attributes)"][c[0]]
+        good = r[0] == b"ok" and r[1] == d[1] and (len(r) < 3 or r[2] == [b"b", b"b", b"1.0.0"][c[0]])
+        ctx.count("via_schema:%d:%s" % (c[0], "same" if good else "differs"))
+        if good:
+            ctx.nontriv(("via", sx(c)))
+            continue
+        if any(tok in text for tok in SCHEMA_RESERVED[c[0]] + LINE_STRUCTURE):
+            ctx.known_hits["F-C19-5"] = ctx.known_hits.get("F-C19-5", 0) + 1
+        else:
+            ctx.violation("a text that deptest/versiontest.ParseString reads is read differently (or dropped) through %s" % entry,
+                          sx(c), observed=o, required=sx(d))
 
 
 def equality_oracle(ctx, gen_pairs):
@@ -277,9 +329,15 @@ def run(ctx):
         if len(ref) != len(obs):
             ctx.violation("observation count differs from the value-semantics reference", sx([flavor, ops]), line)
             continue
+        if any(o[0] == 0 and o[2] >= 64 for o in ops):
+            ref = [None] * len(obs)         # keys outside the 64 the representation provides: behaviour not stated
         for r, o in zip(ref, obs):
             if r is None:
                 continue
+            if r == ("ne",):
+                if isinstance(o, int) and o != 0:
+                    continue
+                r = "non-zero"
             if r != o:
                 ctx.violation("attribute set does not behave as a value (map-based reference disagrees)",
                               sx([flavor, ops]), observed=sx(o), required=sx(r))
@@ -339,6 +397,7 @@ def run(ctx):
     sets = [gen_pairs(VER_FLAGS, VER_VALUED, rng.random() < 0.7) for _ in range(nr)]
     texts, _ = ctx.correspond("ver_write", [sx(p) for p in sets])
     ver_texts = list(texts)
+    sets_ver = list(sets)
     back = ctx.impl("ver_parse", texts)
     want = ctx.impl("attr_history", [sx([1, [[0, 0, k, v] for k, v in p] + [[7, 0]]]) for p in sets])
     for p, t, b, w in zip(sets, texts, back, want):
@@ -382,5 +441,6 @@ def run(ctx):
     ctx.sample({"kind": "dep_roundtrip", "pairs": sx(keep[0][0]), "text": keep[0][1]} if keep else "none")
     # dep.Type.String (pipe form) correspondence
     ctx.correspond("dep_string", [sx(p) for p in sets])
+    via_schema_oracle(ctx, keep, ver_sets=list(zip(sets_ver, ver_texts)))
     equality_oracle(ctx, gen_pairs)
     parse_twice_oracle(ctx, keep, texts_ver=[t for t in ver_texts if t])
